@@ -16,3 +16,9 @@ SegmentFacts.vos SegmentFacts.vok SegmentFacts.required_vos: SegmentFacts.v Byte
 StackFacts.vo StackFacts.glob StackFacts.v.beautified StackFacts.required_vo: StackFacts.v Bytes.vo BytesFacts.vo Segment.vo SegmentFacts.vo Stack.vo
 StackFacts.vio: StackFacts.v Bytes.vio BytesFacts.vio Segment.vio SegmentFacts.vio Stack.vio
 StackFacts.vos StackFacts.vok StackFacts.required_vos: StackFacts.v Bytes.vos BytesFacts.vos Segment.vos SegmentFacts.vos Stack.vos
+Collection.vo Collection.glob Collection.v.beautified Collection.required_vo: Collection.v Stack.vo
+Collection.vio: Collection.v Stack.vio
+Collection.vos Collection.vok Collection.required_vos: Collection.v Stack.vos
+CollectionFacts.vo CollectionFacts.glob CollectionFacts.v.beautified CollectionFacts.required_vo: CollectionFacts.v Bytes.vo BytesFacts.vo Segment.vo SegmentFacts.vo Stack.vo StackFacts.vo Collection.vo
+CollectionFacts.vio: CollectionFacts.v Bytes.vio BytesFacts.vio Segment.vio SegmentFacts.vio Stack.vio StackFacts.vio Collection.vio
+CollectionFacts.vos CollectionFacts.vok CollectionFacts.required_vos: CollectionFacts.v Bytes.vos BytesFacts.vos Segment.vos SegmentFacts.vos Stack.vos StackFacts.vos Collection.vos
